@@ -38,7 +38,7 @@ var properties = map[string]Property{
 	},
 	"C05": {
 		Level:       "other",
-		Rules:       []string{"R-EVAL-WRITE", "R-RESULT-FRESH", "R-TREE-CLOSED", "R-GLOBALS", "O-POOL", "R-ENGINE", "R-ERR-PURE", "G-IMPORTS"},
+		Rules:       []string{"R-EVAL-WRITE", "R-RESULT-FRESH", "R-TREE-CLOSED", "R-GLOBALS", "O-POOL", "R-ENGINE", "R-ERR-PURE", "G-IMPORTS", "R-PEGFIELD", "O-PUTCLEAN"},
 		Explanation: "Decided (necessary core): evaluation has no memory between calls. Every effect instruction reachable from the evaluation closure writes only objects allocated during that evaluation or pooled scratch objects (never the parsed tree, a global, Config memory); the returned slice is an allocation of the call that no instruction stores into longer-lived memory; the returned function reaches no parser-owned, Config or pooled memory and no persistent parser state reaches an earlier tree; every package-level variable is a sync primitive, the lock-protected parser or never written after init; pooled objects are released on every path, never used after a direct release, never stored outside local variables, and result sinks are truncated before Put. Not decided: that two calls on equal documents compute equal results and equality with a fresh Retrieve (behavioural).",
 		Assumptions: []string{"sentinel exemption: the two package-level one-element lists may reach list parameters of validators/comparators/logical operators; premises (assigned only in init, never sliced/appended) are re-verified each run; that no comparator runs with a sentinel as left list on a feasible path is argued in DESIGN.md §3.A, not checked"},
 	},
@@ -109,17 +109,17 @@ var properties = map[string]Property{
 	},
 	"C12": {
 		Level:       "other",
-		Rules:       []string{"N-ACCESS", "N-ACCFLAG", "N-PRESENCE", "N-WALK", "N-CTOR", "N-GETSET", "N-APPLY", "G-IMPORTS", "N-STANDIN", "R-SETTER"},
+		Rules:       []string{"N-ACCESS", "N-ACCFLAG", "N-PRESENCE", "N-WALK", "N-CTOR", "N-GETSET", "N-APPLY", "G-IMPORTS", "N-STANDIN", "R-SETTER", "N-ACCUSE"},
 		Explanation: "Decided (structural part): each of the three emission sites has one plain and one accessor branch selected by the node's own flag, and the accessor's Get re-reads exactly the location (or value) the plain branch emits; the flag-clearing pass sets the flag on every node it walks over and covers every retrieve edge that emits into the parent's sink (inner identifiers of a multi-name selector, its union twin); every place that attaches a chain as function argument or filter operand clears the flag on it. Not decided: equality of the two result sequences as such.",
 	},
 	"C13": {
 		Level:       "other",
-		Rules:       []string{"N-ACCESS", "N-FORWARD", "R-SET-USERONLY", "N-PRESENCE", "N-WALK", "N-CTOR", "N-APPLY", "G-IMPORTS", "R-SETTER"},
+		Rules:       []string{"N-ACCESS", "N-FORWARD", "R-SET-USERONLY", "N-PRESENCE", "N-WALK", "N-CTOR", "N-APPLY", "G-IMPORTS", "R-SETTER", "N-ACCUSE"},
 		Explanation: "Decided (large structural part): at the map and list emission sites Get is the single expression container[key] and Set is exactly one assignment container[key] = value, both on the very container and key variables (captured once, never re-assigned) that the plain branch reads; at the any-value site Get returns the captured value and Set is nil; the value forwarded to the next step is the emitted one; the library never calls the closures it hands out. Not decided: that the accessor at result index i belongs to the location a specification predicts.",
 	},
 	"C14": {
 		Level:       "other",
-		Rules:       []string{"N-FUNCALL", "N-FORWARD", "P-RTERR", "O-POOL", "B-CHAIN", "P-RESTRICT", "N-WALK", "N-GETSET", "N-HEAD", "N-VGSUM", "V-PARAM-ALWAYS", "N-APPLY", "G-IMPORTS", "N-VGFLAG", "N-CTOR", "N-ERRWIRE", "N-HEADORDER"},
+		Rules:       []string{"N-FUNCALL", "N-FORWARD", "P-RTERR", "O-POOL", "B-CHAIN", "P-RESTRICT", "N-WALK", "N-GETSET", "N-HEAD", "N-VGSUM", "V-PARAM-ALWAYS", "N-APPLY", "G-IMPORTS", "N-VGFLAG", "N-CTOR", "N-ERRWIRE", "N-HEADORDER", "O-PUTCLEAN"},
 		Explanation: "Decided (structural part): a function node calls its user function at exactly one site, outside loops; the filter function receives the node's current value; the aggregate receives the list of its private pooled sink, or element 0 as an array only under the parameter's value-group test being false and a successful checked assertion; the function's result is what is forwarded; ErrorFunctionFailed is built only when that call returned an error; the chain builder keeps its link target on the step just processed (so a step after an aggregate is linked behind the aggregate). Not decided: that the value-group flag is correct for the chain (the live `$.a.*.f()` defect), . Also decided: function names are looked up in the filter table first, then the aggregate table, else ErrorFunctionNotFound.",
 	},
 	"C15": {
@@ -134,7 +134,7 @@ var properties = map[string]Property{
 	},
 	"C19": {
 		Level:       "other",
-		Rules:       []string{"R-RESET", "R-PEGRESET", "R-CONFIG", "R-TREE-CLOSED", "R-LOCK", "R-GLOBALS", "R-ENGINE", "N-ENTRY", "G-IMPORTS", "R-SETTER"},
+		Rules:       []string{"R-RESET", "R-PEGRESET", "R-CONFIG", "R-TREE-CLOSED", "R-LOCK", "R-GLOBALS", "R-ENGINE", "N-ENTRY", "G-IMPORTS", "R-SETTER", "R-PEGFIELD"},
 		Explanation: "Decided (necessary core): every field of the global parser's action state that any Parse-phase function writes is zeroed by the deferred closure on every exit of Parse (whole-struct store of the zero value, or field-complete), also on panic; every matcher variable captured by rule closures and written during matching is assigned by the generated reset closure on every path (token tree: overwritten from index 0 and trimmed on success); pointers to the caller's Config are stored only into that action state; the returned function reaches no Config maps and no parser-owned memory, and persistent parser memory reaches no tree; no package-level variable other than the lock-protected parser is written after init (so no cache keyed by path can exist). Not decided: equality of outcomes across histories as such.",
 	},
 }
